@@ -11,7 +11,8 @@ RULE = (
     "cases = (a) loss specs of every kind (ODE / stationary / non-stationary single losses and 1..3-unknown system "
     "losses) with random subsets of terms, with and without parameter / observation parts; (b) generator "
     "configurations of every kind (ODE, stationary 1-D/2-D with border, space-time both product modes, observations, "
-    "parameters, multi-network observations) advanced by k get_batch calls, in x64 and in the default 32-bit precision; "
+    "parameters from tables and ranges, parameters from 2..3 ranges declared in a drawn order with PRNG keys given as one key or as a dictionary "
+    "written in another order, multi-network observations) advanced by k get_batch calls, in x64 and in the default 32-bit precision; "
     "the factor methods (inside_batch, border_batch, temporal_batch, ...) are checked for purity too. Oracle: deep snapshots (pytree structure + "
     "bytes of every leaf + key-by-key copies of every dict reachable through eq_params / batch dicts) of all arguments "
     "before and after the call are identical; a repeated call returns bit-identical results; eager vs "
@@ -188,6 +189,16 @@ def build_generator(cfg):
         return jinns.data.DataGeneratorParameter(k, n, b, param_ranges={"nu": (0.5, 2.0)},
                                                  user_data={"theta": jnp.arange(n, dtype=float) * 0.5 + 10.0},
                                                  method=cfg["method"])
+    if kind == "param_ranges":
+        # ranges only (no array in a static field, so a stand-alone jit is possible); >= 2 parameters declared in a drawn
+        # order, PRNG keys given as one key or as a dictionary written in another drawn order
+        RANGES = {"nu": (0.5, 1.0), "theta": (2.0, 3.5), "alpha": (-4.0, -3.0)}
+        names = cfg["pnames"]
+        keys = k
+        if cfg["pkeys"] is not None:
+            ks = jax.random.split(k, len(names))
+            keys = {nm: ks[i] for i, nm in enumerate(cfg["pkeys"])}
+        return jinns.data.DataGeneratorParameter(keys, n, b, param_ranges={nm: RANGES[nm] for nm in names}, method=cfg["method"])
     if kind == "multi":
         return jinns.data.DataGeneratorObservationsMultiPINNs(
             b, {"u": jnp.arange(n, dtype=float)[:, None], "v": None, "w": jnp.arange(n, dtype=float)[:, None] + 0.25},
@@ -202,6 +213,8 @@ def run_generator(case):
     cfg = case["cfg"]
     g = build_generator(cfg)
     labels = [cfg["kind"]]
+    if cfg.get("pkeys") is not None:
+        labels.append("keys-dict" + ("-other-order" if list(cfg["pkeys"]) != list(cfg["pnames"]) else ""))
     for _ in range(cfg["advance"]):
         g, _b = g.get_batch()
     s0 = snapshot(g)
@@ -251,7 +264,7 @@ def strat_generator():
 
     @st.composite
     def s(draw):
-        kind = draw(st.sampled_from(["ode", "statio", "nonstatio", "obs", "param", "multi"]))
+        kind = draw(st.sampled_from(["ode", "statio", "nonstatio", "obs", "param", "param_ranges", "multi"]))
         n = draw(st.integers(1, 9))
         b = draw(st.integers(1, n))
         per_epoch = -(-n // b)
@@ -264,8 +277,9 @@ def strat_generator():
         cfg["bt"] = draw(st.integers(1, cfg["nt"]))
         if kind == "nonstatio" and not cfg["cartesian"]:
             cfg["nt"] = max(cfg["nt"], b)
-        if kind in ("ode", "param") and cfg["method"] == "grid":
-            pass
+        if kind == "param_ranges":
+            cfg["pnames"] = draw(st.permutations(["nu", "theta", "alpha"]))[: draw(st.integers(2, 3))]
+            cfg["pkeys"] = draw(st.one_of(st.none(), st.permutations(cfg["pnames"])))
         return {"cfg": cfg}
 
     return s()
